@@ -64,6 +64,37 @@ def cmp_sides(t):
     return None
 
 
+def wrap_guards(body):
+    """Tests of `body` on the window's cursor and dict_size that hold exactly when cursor == dict_size on the domain the
+    window maintains (cursor <= dict_size), whatever their spelling (==, >=, !(<)): [(test block, block entered when the
+    window is full)]."""
+    gs, tm = guards(body)
+    out = []
+    pts = [(0, 1), (1, 1), (0, 4096), (1, 4096), (4095, 4096), (4096, 4096), (7, 8), (8, 8)]
+
+    def leaf(cu, di):
+        def lf(q):
+            if q[0] == "field" and q[1] == "cursor":
+                return cu
+            if q[0] == "field" and q[1] == "dict_size":
+                return di
+            raise NotEvaluable(q)
+        return lf
+    for (bb, t, z, nz) in gs:
+        if not (has_field(t, "cursor") and has_field(t, "dict_size")):
+            continue
+        try:
+            tv = [bool(eval_cmp(t, leaf(cu, di))) if cmp_sides(t) else bool(eval_term(t, leaf(cu, di))) for cu, di in pts]
+        except (NotEvaluable, Overflow):
+            continue
+        want = [cu == di for cu, di in pts]
+        if tv == want:
+            out.append((bb, nz))
+        elif tv == [not w for w in want]:
+            out.append((bb, z))
+    return out
+
+
 def true_false_edges(t, z, nz):
     """(edge when the comparison holds, edge when it does not)."""
     return nz, z
@@ -444,6 +475,11 @@ def eval_gated(body, pt, local, use_bb, leaf, use_idx=None, on_def=None):
     if not live:
         if 1 <= local <= body.arg_count:
             return leaf(("arg", local, body.locals[local].name))
+        # defined as the result of one call (`max(a, b)`, `u64::from(x)`, a pure crate helper): the call term is evaluated
+        cdefs = [blk for blk in body.blocks if not blk.cleanup and blk.idx in c.reach and blk.term.k == "call" and
+                 not blk.term.dest.proj and blk.term.dest.local == local]
+        if not defs and len(cdefs) == 1:
+            return eval_term(pt.at(use_bb, use_idx).of_local(local), leaf)
         raise NotEvaluable(("undefined", local))
     best = live[0]
     for d in live[1:]:
